@@ -540,7 +540,7 @@ Proof.
   - (* not ready: nothing changes *)
     rewrite E in *. cbn [fst snd b2z Z.eqb] in *.
     split.
-    + apply good_set_sub; [exact G|]. cbn [rec_good_b m_mode m_start m_deliv m_eos m_eos_ok m_lost] in *. exact GR.
+    + apply good_set_sub; [exact G|]. unfold rec_good_b in *; cbn [m_mode m_start m_deliv m_eos m_eos_ok m_lost] in *. exact GR.
     + right. rewrite <- (set_reg_same (pq e) (s_h o) HL) at 1.
       replace (mkT (set_reg (pq e) (s_h o) (rget (regs (pq e)) (s_h o))) (objs e) (nawt e) (palive e))
         with (mkT (set_reg (pq e) (s_h o) l) (objs e) (nawt e) (palive e)) by reflexivity.
@@ -573,7 +573,7 @@ Proof.
       rewrite W1, G3. fold (npub m). unfold np in H1. rewrite W1, W2, W3 in H1.
       destruct (s_mode o =? 1); [|destruct (s_mode o =? 2)]; lia. }
     split.
-    + apply good_set_sub; [exact G|]. cbn [rec_good_b m_mode m_start m_deliv m_eos m_eos_ok m_lost] in *. exact GR.
+    + apply good_set_sub; [exact G|]. unfold rec_good_b in *; cbn [m_mode m_start m_deliv m_eos m_eos_ok m_lost] in *. exact GR.
     + right. unfold with_pq. cbn [pq objs nawt palive].
       apply (local_update e m s o r); try assumption; try reflexivity.
       * unfold sub_ok. splits; simp_rec; try assumption; try lia.
@@ -626,7 +626,7 @@ Proof.
     fold l in K, E; try fold l in WP; rewrite E in *; cbn [fst snd b2z Z.eqb] in *.
   - (* kicked: nothing changes *)
     split.
-    + apply good_set_sub; [exact G|]. cbn [rec_good_b m_mode m_start m_deliv m_eos m_eos_ok m_lost] in *. exact GR.
+    + apply good_set_sub; [exact G|]. unfold rec_good_b in *; cbn [m_mode m_start m_deliv m_eos m_eos_ok m_lost] in *. exact GR.
     + right. rewrite <- (set_reg_same (pq e) (s_h o) HL) at 1.
       apply (local_update e m s o r); try assumption; try reflexivity.
       * fold l. unfold pos_of. fold l. unfold sub_ok. splits; simp_rec; try assumption; try reflexivity; try lia.
@@ -640,7 +640,7 @@ Proof.
     { unfold pos_of, set_reg, with_regs. cbn [regs]. rewrite rget_set_same by exact HL. cbn [r_pos with_pos]. exact W1. }
     rewrite PE in *. rewrite W1.
     split.
-    + apply good_set_sub; [exact G|]. cbn [rec_good_b m_mode m_start m_deliv m_eos m_eos_ok m_lost] in *. exact GR.
+    + apply good_set_sub; [exact G|]. unfold rec_good_b in *; cbn [m_mode m_start m_deliv m_eos m_eos_ok m_lost] in *. exact GR.
     + right. apply (local_update e m s o r); try assumption; try reflexivity.
       * unfold sub_ok. splits; simp_rec; try assumption; try reflexivity; try lia.
         intros EO. specialize (PO EO). rewrite <- KK in *.
@@ -655,7 +655,7 @@ Proof.
     { unfold pos_of, set_reg, with_regs. cbn [regs]. rewrite rget_set_same by exact HL. cbn [r_pos with_pos with_awt]. exact W1. }
     rewrite PE in *. rewrite W1 in *.
     split.
-    + apply good_set_sub; [exact G|]. cbn [rec_good_b m_mode m_start m_deliv m_eos m_eos_ok m_lost] in *. exact GR.
+    + apply good_set_sub; [exact G|]. unfold rec_good_b in *; cbn [m_mode m_start m_deliv m_eos m_eos_ok m_lost] in *. exact GR.
     + right. apply (local_update e m s o r); try assumption; try reflexivity.
       * unfold sub_ok. splits; simp_rec; try assumption; try reflexivity; try lia.
         intros EO. specialize (PO EO). rewrite <- KK in *. rewrite G3 in WP.
@@ -668,7 +668,7 @@ Proof.
     { unfold pos_of, set_reg, with_regs. cbn [regs]. rewrite rget_set_same by exact HL. cbn [r_pos with_pos]. exact W1. }
     rewrite PE in *. rewrite W1 in *.
     split.
-    + apply good_set_sub; [exact G|]. cbn [rec_good_b m_mode m_start m_deliv m_eos m_eos_ok m_lost] in *. exact GR.
+    + apply good_set_sub; [exact G|]. unfold rec_good_b in *; cbn [m_mode m_start m_deliv m_eos m_eos_ok m_lost] in *. exact GR.
     + right. apply (local_update e m s o r); try assumption; try reflexivity.
       * unfold sub_ok. splits; simp_rec; try assumption; try reflexivity; try lia.
         intros EO. specialize (PO EO). rewrite <- KK in *. rewrite G3 in WP.
@@ -677,4 +677,195 @@ Proof.
       * destruct (awt_same_keep (regs (pq e)) (s_h o) (with_pos l (r_pos l + 1)) (nawt e) HL AN AB) as (A1 & A2);
           [left; unfold awt_of; cbn [r_awt with_pos]; rewrite AW; reflexivity|].
         split; [exact A1|]. intros a Ia. specialize (A2 a Ia). lia.
+Qed.
+
+(* ---- get_value_lk ---- *)
+Lemma In_firstn_skipn (l : list Z) : forall (a b j : nat), (a <= j)%nat -> (j < a + b)%nat -> (j < length l)%nat ->
+  In (nth j l 0) (firstn b (skipn a l)).
+Proof.
+  induction l as [|x l IH]; intros a b j A B L; [cbn in L; lia|].
+  destruct a as [|a].
+  - cbn [skipn]. destruct b as [|b]; [lia|]. destruct j as [|j]; [left; reflexivity|].
+    cbn [firstn nth]. right. apply (IH 0%nat b j); cbn in *; lia.
+  - destruct j as [|j]; [lia|]. cbn [skipn nth]. apply IH; cbn in *; lia.
+Qed.
+
+Lemma memz_nth_range lg a b j : 0 <= a <= j -> j < a + b -> j < zlen lg ->
+  memz (nthz lg j) (firstn (Z.to_nat b) (skipn (Z.to_nat a) lg)) = true.
+Proof.
+  intros A B L. apply memz_In. unfold nthz. apply In_firstn_skipn; unfold zlen in L; lia.
+Qed.
+
+Lemma qidx_val lg qd i v : win lg qd -> qidx qd i = GVal v -> 0 <= i < zlen qd /\ v = nthz lg (zlen lg - 1 - i).
+Proof.
+  intros WN. unfold qidx. destruct ((0 <=? i) && (i <? zlen qd)) eqn:E; [|discriminate].
+  assert (R : 0 <= i < zlen qd) by lia. rewrite (win_nth _ _ _ WN R). intros H. injection H as <-. split; [exact R|reflexivity].
+Qed.
+
+Lemma qidx_not_eos qd i : qidx qd i <> GEos.
+Proof. unfold qidx. destruct ((0 <=? i) && (i <? zlen qd)); [|discriminate]. destruct (nth_error qd (Z.to_nat i)); discriminate. Qed.
+
+Lemma local_same e m s o r r' :
+  Inv e m -> live_obj e s = Some o -> get (m_subs m) s = Some r -> m_live r' = true ->
+  sub_ok (npub m) (zlen (qd (pq e))) (closed (pq e)) (maxl (pq e)) s o (rget (regs (pq e)) (s_h o)) r' ->
+  Inv e (set_sub m s r').
+Proof.
+  intros I L G LV SO.
+  pose proof (i_sub _ _ I s o r L G) as SO0.
+  assert (HL : (s_h o < length (regs (pq e)))%nat) by (apply rget_used_lt; apply SO0).
+  replace e with (mkT (set_reg (pq e) (s_h o) (rget (regs (pq e)) (s_h o))) (objs e) (nawt e) (palive e)) at 1
+    by (rewrite set_reg_same by exact HL; destruct e; reflexivity).
+  apply (local_update e m s o r); try assumption.
+  apply awt_same_keep; [exact HL|apply (i_awt _ _ I)|apply (i_awt _ _ I)|right; reflexivity].
+Qed.
+
+Lemma contig_b_cons start lg p v k d :
+  contig_b start lg ((p, v, k) :: d) =
+  ((p =? start + zlen ((p, v, k) :: d)) && (1 <=? p) && (p <=? zlen lg) && (v =? nthz lg (p - 1)) && contig_b start lg d).
+Proof. reflexivity. Qed.
+
+Lemma step_get e m s : good_b m = true -> m_viol m = false -> Inv e m ->
+  R (fst (step e (OGet s))) (mon_step m (OGet s) (snd (step e (OGet s)))).
+Proof.
+  intros G V I. unfold step, step_gen.
+  destruct (live_obj e s) as [o|] eqn:L.
+  2:{ unfold mon_step. rewrite V. cbn. apply R_same; assumption. }
+  destruct (inv_rec _ _ _ _ I L) as (r & Gr & LV).
+  pose proof (i_sub _ _ I s o r L Gr) as (U & SB & MD & VM & KK & CU & RG & AW & PO).
+  pose proof (good_rec _ _ _ G Gr) as GR. unfold rec_good_b in GR.
+  pose proof (i_g _ _ I) as [G1 G2 G3 G4 G5 G6]. fold (npub m) in *.
+  pose proof (win_len _ _ G5) as WL. fold (npub m) in WL.
+  pose proof (zlen_nonneg (qd (pq e))) as QN. pose proof (zlen_nonneg (m_deliv r)) as DN.
+  assert (HW : HALF < W) by reflexivity.
+  unfold pos_of. set (l := rget (regs (pq e)) (s_h o)) in *.
+  destruct (get_value_lk (pq e) (s_h o) (s_mode o)) as [v| |] eqn:GV; cbn [fst snd]; unfold mon_step; rewrite V;
+    cbn [o_st ok3 ub_obs Z.eqb negb o_a o_b o_c]; try (apply R_viol; exact G);
+    rewrite Gr; destruct (m_pc r) eqn:PC; try (apply R_viol; exact G); rewrite LV; cbn [negb];
+    destruct (m_eos r) eqn:EO.
+  - (* value after an end of stream: not recorded *)
+    split.
+    + apply good_set_sub; [exact G|]. unfold with_pc. unfold rec_good_b in *; cbn [m_mode m_start m_deliv m_eos m_eos_ok m_lost] in *. rewrite ?EO. exact GR.
+    + right. apply (local_same e m s o r); try assumption. fold l.
+      unfold sub_ok. splits; simp_rec; try assumption; try reflexivity; try lia.
+      intros; congruence.
+  - (* a value is delivered *)
+    specialize (PO eq_refl). unfold get_value_lk in GV. fold l in GV.
+    destruct (r_kicked l || (r_pos l =? qpos (pq e))) eqn:KE; [discriminate|].
+    apply orb_false_elim in KE as (K & PE). rewrite <- KK, K. cbn [orb].
+    rewrite G3 in *.
+    destruct PO as (ST & M0 & M12). rewrite PC in *. rewrite <- KK in *. rewrite MD in *. simp_rec.
+    destruct (valid_mode_cases _ VM) as [T|[T|T]]; rewrite T in *; cbn [Z.eqb] in GV.
+    + (* all_values *)
+      specialize (M0 eq_refl). destruct M0 as (A1 & A2 & A3 & A4). specialize (A3 eq_refl K).
+      destruct (zlen (qd (pq e)) <=? wrap (npub m + 1 - r_pos l - 1)) eqn:RP; [discriminate|].
+      assert (RP2 : wrap (npub m + 1 - r_pos l - 1) = npub m - r_pos l).
+      { destruct (Z_lt_ge_dec (npub m + 1 - r_pos l - 1) 0) as [N|N].
+        - rewrite wrap_neg in RP by lia. lia.
+        - rewrite wrap_small by lia. lia. }
+      rewrite RP2 in *.
+      apply (qidx_val _ _ _ _ G5) in GV as (IR & VE). fold (npub m) in VE.
+      split.
+      * apply good_add_bad. apply good_set_sub; [exact G|].
+        unfold rec_good_b in *; cbn [m_mode m_start m_deliv m_eos m_eos_ok m_lost] in *. try rewrite T in *. cbn [Z.eqb] in *.
+        rewrite contig_b_cons. rewrite zlen_cons. fold (npub m).
+        apply andb_prop in GR as (GR1 & GR2). rewrite GR1. cbn [negb orb andb]. rewrite andb_true_r.
+        replace (npub m - 1 - (npub m - r_pos l)) with (r_pos l - 1) in VE by lia. lia.
+      * right. unfold add_bad. cbn [orb]. rewrite orb_false_r.
+        replace (mkM (m_log (set_sub m s _)) _ _ _ _ _ _) with
+          (set_sub m s (mkSr true 0 PIdle (m_start r) (m_cur r) ((r_pos l, v, npub m) :: m_deliv r) false (m_eos_ok r) false (m_lost r)))
+          by (unfold set_sub; cbn; reflexivity).
+        apply (local_same e m s o r); try assumption; try reflexivity. fold l.
+        unfold sub_ok. splits; simp_rec; try assumption; try reflexivity; try lia.
+        intros _. unfold pos_ok. simp_rec. rewrite zlen_cons.
+        clear - ST A3 A4 IR G4. intuition (try discriminate; try congruence; try lia).
+    + (* skip_if_behind *)
+      specialize (M12 ltac:(lia)). destruct M12 as (B1 & B2 & B3 & B4). specialize (B3 eq_refl K).
+      apply (qidx_val _ _ _ _ G5) in GV as (IR & VE). fold (npub m) in VE.
+      split.
+      * apply good_add_bad. apply good_set_sub; [exact G|].
+        unfold rec_good_b in *; cbn [m_mode m_start m_deliv m_eos m_eos_ok m_lost] in *. try rewrite T in *. cbn [Z.eqb] in *.
+        apply andb_prop in GR as (GR1 & GR2). apply andb_prop in GR1 as (GR3 & GR4).
+        cbn [incr_b forallb negb orb]. rewrite GR3. rewrite andb_true_r.
+        apply andb_true_intro. split; [lia|].
+        destruct (m_lost r) eqn:LS; [reflexivity|]. cbn [orb] in *. rewrite GR4. rewrite andb_true_r.
+        specialize (B4 eq_refl). destruct B4 as (C1 & C2 & C3).
+        unfold skipval_b. cbn [Z.eqb].
+        assert (PL : r_pos l <= npub m) by lia.
+        assert (RP2 : wrap (npub m + 1 - r_pos l - 1) = npub m - r_pos l) by (apply wrap_small; lia).
+        rewrite RP2 in IR, VE.
+        assert (ME : memz v (firstn (Z.to_nat (npub m - r_pos l + 1)) (skipn (Z.to_nat (r_pos l - 1)) (m_log m))) = true).
+        { rewrite VE. apply memz_nth_range; fold (npub m).
+          - destruct (zlen (qd (pq e)) <=? npub m - r_pos l) eqn:CC.
+            + rewrite wrap_small in * by lia. lia.
+            + lia.
+          - destruct (zlen (qd (pq e)) <=? npub m - r_pos l) eqn:CC.
+            + rewrite wrap_small in * by lia. lia.
+            + lia.
+          - lia. }
+        rewrite ME. fold (npub m). lia.
+      * right. unfold add_bad. cbn [orb]. rewrite orb_false_r.
+        replace (mkM (m_log (set_sub m s _)) _ _ _ _ _ _) with
+          (set_sub m s (mkSr true 1 PIdle (m_start r) (m_cur r) ((r_pos l, v, npub m) :: m_deliv r) false (m_eos_ok r) false (m_lost r)))
+          by (unfold set_sub; cbn; reflexivity).
+        apply (local_same e m s o r); try assumption; try reflexivity. fold l.
+        unfold sub_ok. splits; simp_rec; try assumption; try reflexivity; try lia.
+        intros _. unfold pos_ok. simp_rec. cbn [last_pos].
+        clear - ST B1 B3 B4 PE G4. intuition (try discriminate; try congruence; try lia).
+    + (* skip_to_recent *)
+      specialize (M12 ltac:(lia)). destruct M12 as (B1 & B2 & B3 & B4). specialize (B3 eq_refl K).
+      apply (qidx_val _ _ _ _ G5) in GV as (IR & VE). fold (npub m) in VE.
+      split.
+      * apply good_add_bad. apply good_set_sub; [exact G|].
+        unfold rec_good_b in *; cbn [m_mode m_start m_deliv m_eos m_eos_ok m_lost] in *. try rewrite T in *. cbn [Z.eqb] in *.
+        apply andb_prop in GR as (GR1 & GR2). apply andb_prop in GR1 as (GR3 & GR4).
+        cbn [incr_b forallb negb orb]. rewrite GR3. rewrite andb_true_r.
+        apply andb_true_intro. split; [lia|].
+        destruct (m_lost r) eqn:LS; [reflexivity|]. cbn [orb] in *. rewrite GR4. rewrite andb_true_r.
+        specialize (B4 eq_refl). destruct B4 as (C1 & C2 & C3).
+        unfold skipval_b. cbn [Z.eqb]. fold (npub m).
+        replace (npub m - 1 - 0) with (npub m - 1) in VE by lia. lia.
+      * right. unfold add_bad. cbn [orb]. rewrite orb_false_r.
+        replace (mkM (m_log (set_sub m s _)) _ _ _ _ _ _) with
+          (set_sub m s (mkSr true 2 PIdle (m_start r) (m_cur r) ((r_pos l, v, npub m) :: m_deliv r) false (m_eos_ok r) false (m_lost r)))
+          by (unfold set_sub; cbn; reflexivity).
+        apply (local_same e m s o r); try assumption; try reflexivity. fold l.
+        unfold sub_ok. splits; simp_rec; try assumption; try reflexivity; try lia.
+        intros _. unfold pos_ok. simp_rec. cbn [last_pos].
+        clear - ST B1 B3 B4 PE G4. intuition (try discriminate; try congruence; try lia).
+  - (* end of stream after an end of stream *)
+    split.
+    + apply good_set_sub; [exact G|]. unfold with_pc. unfold rec_good_b in *; cbn [m_mode m_start m_deliv m_eos m_eos_ok m_lost] in *. rewrite ?EO. exact GR.
+    + right. apply (local_same e m s o r); try assumption. fold l.
+      unfold sub_ok. splits; simp_rec; try assumption; try reflexivity; try lia.
+      intros; congruence.
+  - (* first end of stream: it must be legitimate *)
+    specialize (PO eq_refl). unfold get_value_lk in GV. fold l in GV. rewrite G3 in *.
+    destruct PO as (ST & M0 & M12). rewrite PC in *. rewrite <- KK in *. rewrite MD in *. simp_rec.
+    assert (EOK : r_kicked l || m_lost r ||
+                  (m_closed m && (if s_mode o =? 0 then m_start r + zlen (m_deliv r) =? npub m else m_cur r =? npub m + 1)) = true).
+    { destruct (r_kicked l) eqn:K; [reflexivity|]. destruct (m_lost r) eqn:LS; [reflexivity|]. cbn [orb] in *.
+      rewrite <- (i_cl _ _ I). rewrite CU.
+      destruct (r_pos l =? npub m + 1) eqn:PE.
+      - destruct (valid_mode_cases _ VM) as [T|[T|T]]; rewrite T in *; cbn [Z.eqb].
+        + specialize (M0 eq_refl). destruct M0 as (A1 & A2 & A3 & A4). specialize (A3 eq_refl K).
+          specialize (A4 eq_refl). destruct A4 as (D1 & D2 & D3 & D4). rewrite D4; [lia|reflexivity|exact K|lia].
+        + specialize (M12 ltac:(lia)). destruct M12 as (B1 & B2 & B3 & B4). specialize (B4 eq_refl).
+          destruct B4 as (C1 & C2 & C3). rewrite C3; [lia|reflexivity|exact K|lia].
+        + specialize (M12 ltac:(lia)). destruct M12 as (B1 & B2 & B3 & B4). specialize (B4 eq_refl).
+          destruct B4 as (C1 & C2 & C3). rewrite C3; [lia|reflexivity|exact K|lia].
+      - exfalso. destruct (valid_mode_cases _ VM) as [T|[T|T]]; rewrite T in *; cbn [Z.eqb] in GV.
+        + specialize (M0 eq_refl). destruct M0 as (A1 & A2 & A3 & A4). specialize (A3 eq_refl K).
+          specialize (A4 eq_refl). destruct A4 as (D1 & D2 & D3 & D4).
+          destruct (zlen (qd (pq e)) <=? wrap (npub m + 1 - r_pos l - 1)) eqn:RP.
+          * rewrite wrap_small in RP by lia. lia.
+          * eapply qidx_not_eos. exact GV.
+        + eapply qidx_not_eos. exact GV.
+        + eapply qidx_not_eos. exact GV. }
+    split.
+    + apply good_set_sub; [exact G|]. unfold rec_good_b in *; cbn [m_mode m_start m_deliv m_eos m_eos_ok m_lost] in *.
+      apply andb_prop in GR as (GR1 & GR2). rewrite GR1. cbn [negb orb andb]. exact EOK.
+    + right. apply (local_same e m s o r); try assumption; try reflexivity. fold l.
+      unfold sub_ok. splits; simp_rec; try assumption; try reflexivity; try lia.
+      * rewrite AW. reflexivity.
+      * discriminate.
 Qed.
